@@ -34,7 +34,7 @@ def _sh(v, d):
 
 
 def random_table(rng, nmodels=None, shared_identities=True, altlocs=True, close_pairs=True, dup_names=True, hetatm=True,
-                 icodes=True, charges=True, null_occ=False, blank_chain=False, nchains=None, nres=None, wide=True):
+                 icodes=True, charges=True, null_occ=False, blank_chain=False, nchains=None, nres=None, wide=True, model_numbers=None):
     """Residues are contiguous; models (if shared_identities) repeat the same
     residue identities with shifted coordinates, as NMR ensembles do."""
     nmodels = nmodels or rng.choice([1, 1, 1, 2, 3, 5])
@@ -61,7 +61,7 @@ def random_table(rng, nmodels=None, shared_identities=True, altlocs=True, close_
             # alternate locations: two copies of one name with different occupancies
             if altlocs and rng.random() < 0.35:
                 a = rng.choice(atoms)
-                o = rng.choice([0.3, 0.4, 0.5, 0.6, 0.7])
+                o = rng.choice([0.0, 0.3, 0.4, 0.5, 0.6, 0.7, 1.0])
                 a["alt"], a["occ"] = "A", o
                 twin = {"name": a["name"], "alt": "B", "xyz": [clamp(v - rng.choice([0.3, 0.8, 1.5])) if v > 9000 else clamp(v + rng.choice([0.3, 0.8, 1.5])) for v in a["xyz"]], "occ": round(1.0 - o, 2)}
                 atoms.insert(atoms.index(a) + 1, twin)
@@ -74,7 +74,9 @@ def random_table(rng, nmodels=None, shared_identities=True, altlocs=True, close_
                 a = rng.choice(atoms)
                 other = rng.choice([n for n in ATOM_NAMES if all(n != x["name"] for x in atoms)])
                 d = rng.choice([0.2, 0.3, 0.7, 0.9])
-                atoms.append({"name": other, "alt": None, "xyz": [clamp(a["xyz"][0] - d) if a["xyz"][0] > 9000 else clamp(a["xyz"][0] + d), a["xyz"][1], a["xyz"][2]], "occ": rng.choice([0.3, 0.5, 0.8, 1.0])})
+                atoms.append({"name": other, "alt": None, "xyz": [clamp(a["xyz"][0] - d) if a["xyz"][0] > 9000 else clamp(a["xyz"][0] + d), a["xyz"][1], a["xyz"][2]], "occ": rng.choice([0.0, 0.3, 0.5, 0.8, 1.0])})
+                if rng.random() < 0.3:
+                    a["occ"] = rng.choice([0.0, 0.4, 1.0])
             if null_occ:
                 for a in atoms:
                     if rng.random() < 0.3:
@@ -85,6 +87,18 @@ def random_table(rng, nmodels=None, shared_identities=True, altlocs=True, close_
             if num > 9999:
                 break
     rows = []
+    # model numbers need not be 1..N (a selection from an ensemble keeps its numbers)
+    numbering = rng.choice(["1..N", "1..N", "offset", "gaps"]) if model_numbers is None else model_numbers
+    if numbering == "offset":
+        off = rng.choice([1, 2, 6])
+        mnum = {m: m + off for m in range(1, nmodels + 1)}
+    elif numbering == "gaps":
+        cur, mnum = rng.choice([1, 2, 3]), {}
+        for m in range(1, nmodels + 1):
+            mnum[m] = cur
+            cur += rng.choice([1, 2, 3, 5])
+    else:
+        mnum = {m: m for m in range(1, nmodels + 1)}
     for m in range(1, nmodels + 1):
         if not shared_identities and m > 1:
             break
@@ -96,7 +110,7 @@ def random_table(rng, nmodels=None, shared_identities=True, altlocs=True, close_
                     "rec": res["rec"], "serial": serial, "name": a["name"], "alt": a["alt"], "resname": res["resname"], "chain": res["chain"],
                     "resseq": res["resseq"], "icode": res["icode"], "x": _sh(a["xyz"][0], shift), "y": _sh(a["xyz"][1], -shift), "z": _sh(a["xyz"][2], shift / 2),
                     "occ": a["occ"], "b": round(rng.uniform(0, 99.99), 2), "element": element_of(a["name"]),
-                    "charge": (rng.choice(["1+", "2+", "1-", "2-"]) if charges and rng.random() < 0.1 else None), "model": m,
+                    "charge": (rng.choice(["1+", "2+", "1-", "2-"]) if charges and rng.random() < 0.1 else None), "model": mnum[m],
                 })
     return rows
 
